@@ -36,7 +36,7 @@ func RunCond(sc CondScenario) []Ev {
 	gc, gerr := condition.NewExprCondition(sc.General)
 	var s *streamsql.Streamsql
 	if sc.SQL != "" {
-		s = streamsql.New()
+		s = newInstance()
 		if err := s.Execute(sc.SQL); err != nil {
 			s = nil
 		} else {
